@@ -20,6 +20,7 @@ struct ScriptCfg {
     int maxSetup = 14;
     int maxEdits = 10;
     bool ragged = false;
+    bool raggedSub = false;       // frames whose later sub-frame holds one channel fewer (accepted by frame(): only sub-frame 0 is checked)
 };
 
 static rc::Gen<long long> nameIdx() { return sized(0, 40); }
@@ -45,6 +46,12 @@ static rc::Gen<Op> gParam(bool bad) {
                                              ndv == 0 ? g::weightedOneOf<long long>({{3, g::just<long long>(1)}, {3, sized(0, 12)}, {1, g::just<long long>(0)}}) : delta,
                                              g::just(ndv)};
         for (long long i = 0; i < ndv; ++i) a.push_back(dimEntry());
+        if (ndv == 2) {
+            // occasionally a large matrix: the record is longer than 32767 bytes (still within the 16-bit offset)
+            std::vector<rc::Gen<long long>> big(a.begin(), a.begin() + 8);
+            big.push_back(g::elementOf(std::vector<long long>{128, 200, 255})); big.push_back(g::elementOf(std::vector<long long>{70, 100, 110}));
+            return g::weightedOneOf<Op>({{12, op("param", a)}, {1, op("param", big)}});
+        }
         if (bad && ndv >= 5) {
             // occasionally only large power-of-two entries: the product overflows 32 bits
             std::vector<rc::Gen<long long>> b(a.begin(), a.begin() + 8);
@@ -60,12 +67,14 @@ static rc::Gen<Op> gSetupOp(const ScriptCfg &c, bool rates = true) {
         {5, op("decla", {nameIdx(), trail()})},
         {3, rates ? op("prate", {uni(0, kNumRates - 1)}) : op("obs", {})},
         {3, rates ? op("arate", {sized(0, 9)}) : op("obs", {})},
+        {2, (rates && c.lateRates) ? op("pratex", {uni(0, kNumRates - 1), uni(-9, 9)}) : op("obs", {})},
         {6, gParam(c.badParams)},
         {1, op("lockg", {c.badParams ? sized(0, 12) : sized(0, 9)})},
         {1, op("unlockg", {c.badParams ? sized(0, 12) : sized(0, 9)})},
     });
 }
 static rc::Gen<long long> frameDev(const ScriptCfg &c) {
+    if (c.raggedSub) return g::weightedOneOf<long long>({{8, g::just<long long>(0)}, {1, g::just<long long>(12)}, {2, g::just<long long>(13)}});
     if (!c.deviations) return g::weightedOneOf<long long>({{9, g::just<long long>(0)}, {1, g::just<long long>(12)}});
     return g::weightedOneOf<long long>({{6, g::just<long long>(0)}, {1, g::just<long long>(12)}, {5, uni(1, 10)}});
 }
@@ -85,6 +94,7 @@ static rc::Gen<long long> colDev(const ScriptCfg &c, bool analog) {
     if (!c.deviations) return g::just<long long>(0);
     std::vector<long long> devs = {1, 2, 3, 4, 5, 6};
     if (c.ragged) devs.push_back(7);
+    if (c.ragged && !analog) devs.push_back(11);
     if (analog) { devs.push_back(9); devs.push_back(10); if (c.ragged) devs.push_back(11); }
     return g::weightedOneOf<long long>({{5, g::just<long long>(0)}, {5, g::elementOf(devs)}});
 }
@@ -97,7 +107,7 @@ static rc::Gen<Op> gEditOp(const ScriptCfg &c) {
         {1, op("unlockg", {sized(0, 9)})},
     };
     if (c.lateDecl) { w.push_back({3, op("declp", {nameIdx(), trail()})}); w.push_back({3, op("decla", {nameIdx(), trail()})}); }
-    if (c.lateRates) { w.push_back({1, op("prate", {uni(0, kNumRates - 1)})}); w.push_back({1, op("arate", {sized(0, 9)})}); }
+    if (c.lateRates) { w.push_back({1, op("prate", {uni(0, kNumRates - 1)})}); w.push_back({1, op("arate", {sized(0, 9)})}); w.push_back({2, op("pratex", {uni(0, kNumRates - 1), uni(-9, 9)})}); }
     if (c.callerReuse) {
         w.push_back({4, op("fmut", {uni(0, 3), uni(0, 4), seedv()})});
         w.push_back({5, op("fsub", {uni(0, 3), uni(0, c.extend ? 2 : 1), sized(0, 20)})});
@@ -128,7 +138,7 @@ rc::Gen<std::vector<Op>> genScriptOps(const ScriptCfg &c) {
         return g::mapcat(uni(0, 99), [o, pct](long long k) { return k < pct ? one(o) : g::just(std::vector<Op>()); });
     };
     auto pr = maybe(op("prate", {uni(0, kNumRates - 1)}), 88), ar = maybe(op("arate", {sized(0, 9)}), 80);
-    auto seg = [c]() { return ops(gSetupOp(c, c.lateRates), c.maxSetup / 3 + 1); };   // C05 changes rates several times before frames exist
+    auto seg = [c]() { return ops(gSetupOp(c, true), c.maxSetup / 3 + 1); };   // rates may change several times before frames exist
     // a burst of declarations so that most objects carry points and/or channels
     auto declP = ops(op("declp", {nameIdx(), trail()}), c.maxFrames > 20 ? 12 : 5);
     auto declA = ops(op("decla", {nameIdx(), trail()}), c.maxFrames > 20 ? 8 : 4);
@@ -149,16 +159,17 @@ static ScriptCfg cfgFor(const std::string &id, int tier) {
     if (id == "C01") { c.extend = true; }
     else if (id == "C03") { c.reload = true; }
     else if (id == "C05") { c.deviations = true; c.reload = true; c.lateRates = true; c.fillAtEnd = false; c.badParams = true; }
-    else if (id == "C06") { c.fillAtEnd = false; c.callerReuse = false; }
+    else if (id == "C06") { c.fillAtEnd = false; c.callerReuse = false; c.deviations = true; }   // accepted deviating frames (e.g. points only) must be stored exactly as given too
     else if (id == "C07") { c.deviations = true; c.fillAtEnd = false; }
     else if (id == "C08") { c.callerReuse = true; c.fillAtEnd = false; }
     else if (id == "C09") { c.badParams = true; c.fillAtEnd = false; c.maxFrames = 2; }
     else if (id == "C10") { c.deviations = true; c.badParams = true; c.ragged = true; c.reload = true; c.fillAtEnd = false; }
     else if (id == "C13") { c.deviations = true; c.badParams = true; c.callerReuse = true; c.reload = true; c.print = true; c.ragged = false; }
-    else if (id == "C14") { c.print = false; }
+    else if (id == "C14") { c.print = false; c.raggedSub = true; }
     return c;
 }
 
+rc::Gen<std::vector<Op>> genFileOpsFor(int tier, bool layouts);
 rc::Gen<std::vector<Op>> genScriptOpsFor(const std::string &id, int tier) {
     const bool editMode = id.size() == 4 && id[3] == 'e';
     ScriptCfg c = cfgFor(editMode ? id.substr(0, 3) : id, tier);
@@ -177,7 +188,9 @@ rc::Gen<Case> genScriptCase(const std::string &id, int tier) {
     if (id == "C11") {
         ScriptCfg c = cfgFor(id, tier); c.fillAtEnd = false; c.maxFrames = tier ? 12 : 6; c.callerReuse = false;
         auto look = op("look", {uni(0, 12), uni(0, 5), sized(0, 400)});
-        return asCase(concat({genScriptOps(c), ops(look, tier ? 60 : 30)}));
+        auto scratch = concat({genScriptOps(c), ops(look, tier ? 60 : 30)});
+        auto loaded = concat({genFileOpsFor(tier, true), one(op("load", {})), ops(look, tier ? 60 : 30)});     // byte-typed parameters, unlabeled points, events only exist in loaded files
+        return asCase(g::oneOf(scratch, scratch, loaded));
     }
     return asCase(genScriptOps(cfgFor(id, tier)));
 }
